@@ -222,3 +222,11 @@ def refreshRows {α : Type} (f : Nat → α) (rows : List α) (ids : List Nat) (
   rows.take last ++ (ids.drop last).map f
 
 end AITB.CursorUtil
+
+namespace AITB.CursorUtil
+/-- the scan of `sequential_sorted_contains(v, elems)` on the remaining suffixes (what the cursor loop computes; Props.C10Contains) -/
+def recContains : List Nat → List Nat → Bool
+  | _, [] => true
+  | [], _ :: _ => false
+  | x :: vs, e :: es => if x < e then recContains vs (e :: es) else if x > e then false else recContains vs es
+end AITB.CursorUtil
